@@ -8,7 +8,7 @@ from ..cfg import NORMAL, Node, handler_classes
 from ..core import Ctx
 from ..flow import ALL, find_path, names_in
 from ..model import AnalysisError, FunctionInfo, dotted, norm_text
-from .common import error_escapes, handler_nodes, in_try_body, kwarg, reachable_from
+from .common import edge_target, error_escapes, handler_nodes, in_try_body, kwarg, reachable_from
 
 EXPLANATION = (
     "Static analysis of the two local publishers (LocalStorageBackend.write_file, DataFileWriter.close): (R1) dominance + "
@@ -191,6 +191,8 @@ def local_writes_take_the_durable_branch(ctx: Ctx, rid: str = "C16.R6") -> None:
     w = ctx.fn("data_operations.DataFileWriter.open")
     wg = ctx.cfg(w)
     brs = [b for b in wg.nodes if b.kind == "branch" and b.ast is not None and "_filesystem" in norm_text(b.ast)]
+    if not brs:
+        brs = _derived_publish_mode_branches(ctx, w)
     ctx.ob(rid, w, "the writer's branch is decided by the filesystem argument", brs[0] if brs else None, bool(brs),
            "if self._filesystem: direct write (object store) / else: temp file (renamed in close)")
 
@@ -409,3 +411,83 @@ def short_writes_completed(ctx: Ctx, rid: str = "C16.R11") -> None:
                f"`{w.text[:50]}`: " + ("its count decides whether more has to be written" if (not discarded) and compared else
                                       "the returned count is discarded - a short write is fsynced, renamed and published as a truncated file"),
                text=norm_text(w.ast)[:40])
+
+
+def _derived_publish_mode_branches(ctx: Ctx, w: FunctionInfo) -> List[Node]:
+    """The decision carried in a derived attribute: `if not self._atomic_publish:` in open(), where the constructor sets
+    `self._atomic_publish = (not filesystem) if atomic_publish is None else atomic_publish` and every construction site of the
+    writer either omits the keyword or passes a value that is - by a single assignment in the caller's constructor -
+    `not <the very expression it hands over as filesystem>`.  Then the attribute is `not filesystem` in every writer, and the
+    temp-file side must be its TRUE side."""
+    wg = ctx.cfg(w)
+    cls = w.cls
+    init = cls.methods.get("__init__") if cls is not None else None
+    if init is None:
+        return []
+    fs_param = next((p.name for p in init.params if "filesystem" in p.name), None)
+    if fs_param is None:
+        return []
+
+    def single_self_assign(m: FunctionInfo, attr: str) -> Optional[ast.AST]:
+        vals = [x.value for x in ast.walk(m.node) if isinstance(x, ast.Assign) and len(x.targets) == 1 and isinstance(x.targets[0], ast.Attribute)
+                and x.targets[0].attr == attr and isinstance(x.targets[0].value, ast.Name) and x.targets[0].value.id == (m.self_name() or "self")]
+        return vals[0] if len(vals) == 1 else None
+
+    def is_not(e: Optional[ast.AST], what: str) -> bool:
+        return isinstance(e, ast.UnaryOp) and isinstance(e.op, ast.Not) and norm_text(e.operand) == what
+
+    out: List[Node] = []
+    for b in wg.nodes:
+        if b.kind != "branch" or b.ast is None:
+            continue
+        t, neg = b.ast, False
+        while isinstance(t, ast.UnaryOp) and isinstance(t.op, ast.Not):
+            t, neg = t.operand, not neg
+        if not (isinstance(t, ast.Attribute) and isinstance(t.value, ast.Name) and t.value.id == (w.self_name() or "self")):
+            continue
+        e = single_self_assign(init, t.attr)
+        if any(isinstance(x, ast.Assign) and any(isinstance(tg, ast.Attribute) and tg.attr == t.attr for tg in x.targets)
+               for m_ in cls.methods.values() if m_ is not init for x in ast.walk(m_.node)):
+            continue  # re-assigned outside the constructor
+        kw = None
+        if is_not(e, fs_param):
+            ok = True
+        elif isinstance(e, ast.IfExp) and isinstance(e.test, ast.Compare) and len(e.test.ops) == 1 and isinstance(e.test.left, ast.Name) \
+                and isinstance(e.test.comparators[0], ast.Constant) and e.test.comparators[0].value is None \
+                and ((isinstance(e.test.ops[0], ast.Is) and is_not(e.body, fs_param) and norm_text(e.orelse) == e.test.left.id)
+                     or (isinstance(e.test.ops[0], ast.IsNot) and is_not(e.orelse, fs_param) and norm_text(e.body) == e.test.left.id)):
+            kw, ok = e.test.left.id, True
+        else:
+            continue
+        if kw is not None:
+            # every construction site: the keyword is omitted, or is `not <its own filesystem argument>` by a single assignment
+            pidx = [p.name for p in init.params if p.name != init.self_name()].index(fs_param)
+            for f in ctx.prog.functions.values():
+                if isinstance(f.node, ast.Lambda):
+                    continue
+                for n in ctx.cfg(f).calls():
+                    if not (n.callee is not None and n.callee.kind == "ctor" and n.callee.cls is cls and isinstance(n.ast, ast.Call)):
+                        continue
+                    given = kwarg(n.ast, kw)
+                    if given is None:
+                        continue
+                    fs_arg = n.ast.args[pidx] if pidx < len(n.ast.args) else kwarg(n.ast, fs_param)
+                    val = given
+                    if isinstance(given, ast.Attribute) and isinstance(given.value, ast.Name) and given.value.id == (f.self_name() or "self") and f.cls is not None:
+                        ci = f.cls.methods.get("__init__")
+                        val = single_self_assign(ci, given.attr) if ci is not None else None
+                    if fs_arg is None or not is_not(val, norm_text(fs_arg)):
+                        ok = False
+        if not ok:
+            continue
+        # polarity: the temp file is created on the side where the attribute is TRUE
+        tside = edge_target(wg, b, "false" if neg else "true")
+        oside = edge_target(wg, b, "true" if neg else "false")
+        temps = [n for n in wg.calls() if n.callee is not None and n.callee.kind == "prim" and n.callee.name.startswith("tempfile.")]
+        if tside is None or not temps:
+            continue
+        rt = reachable_from(wg, tside, NORMAL)
+        ro = reachable_from(wg, oside, NORMAL) if oside is not None else set()
+        if all(x.id in rt and x.id not in ro for x in temps):
+            out.append(b)
+    return out
